@@ -16,6 +16,7 @@ const (
 	KGo TKind = iota
 	KSet
 	KSpecInt // a spec-level integer (len etc.)
+	KArr     // contents of a backing array: (Array Int elem)
 )
 
 type TVal struct {
@@ -168,6 +169,10 @@ func (env *SpecEnv) resolveType(te STypeExpr) (types.Type, TKind) {
 		et, _ := env.resolveType(*te.Elem)
 		return et, KSet
 	}
+	if te.Arr {
+		et, _ := env.resolveType(*te.Elem)
+		return et, KArr
+	}
 	if te.Slice {
 		et, _ := env.resolveType(*te.Elem)
 		return types.NewSlice(et), KGo
@@ -250,7 +255,7 @@ func (env *SpecEnv) eval(e SExpr) TVal {
 		return TVal{T: te.IntLit(n), Ty: tInt}
 	case SFloatLit:
 		f, _ := strconv.ParseFloat(x.Val, 64)
-		return TVal{T: floatLit(f), Ty: tFloat}
+		return TVal{T: te.FLit(f), Ty: tFloat}
 	case SStrLit:
 		s, err := strconv.Unquote(`"` + x.Val + `"`)
 		if err != nil {
@@ -272,8 +277,8 @@ func (env *SpecEnv) eval(e SExpr) TVal {
 		case "!":
 			return TVal{T: Not(v.T), Ty: tBool}
 		case "-":
-			if v.T.Sort == SF64 {
-				return TVal{T: app(SF64, "fp.neg", v.T), Ty: v.Ty}
+			if isFloatSort(v.T.Sort) {
+				return TVal{T: te.FOp("neg", v.T), Ty: v.Ty}
 			}
 			if v.T.Sort == SBV64 {
 				return TVal{T: app(SBV64, "bvneg", v.T), Ty: v.Ty}
@@ -380,7 +385,7 @@ func (env *SpecEnv) constVal(o *types.Const) TVal {
 		return TVal{T: te.IntLit(n), Ty: t}
 	case b.Info()&types.IsFloat != 0:
 		f, _ := constant.Float64Val(o.Val())
-		return TVal{T: floatLit(f), Ty: t}
+		return TVal{T: te.FLit(f), Ty: t}
 	}
 	env.fail("constant %s", o.Name())
 	return TVal{}
@@ -436,6 +441,9 @@ func (env *SpecEnv) ident(name string) TVal {
 func (env *SpecEnv) sortOfKind(t types.Type, k TKind) string {
 	if k == KSet {
 		return ArraySort(env.te().SortOf(t), SBool)
+	}
+	if k == KArr {
+		return ArraySort(SInt, env.te().SortOf(t))
 	}
 	return env.te().SortOf(t)
 }
@@ -562,9 +570,8 @@ func (env *SpecEnv) binary(x SBinary) TVal {
 			eq = isNilTerm(b.T)
 		case b.Nil:
 			eq = isNilTerm(a.T)
-		case a.T.Sort == SF64:
-			eq = app(SBool, "fp.eq", a.T, b.T)
 		default:
+			// note: on float64 this is identity (SMT =), not IEEE ==; use feq(a, b) for the latter
 			if a.T.Sort != b.T.Sort {
 				env.fail("comparison of different sorts %s and %s", a.T.Sort, b.T.Sort)
 			}
@@ -600,14 +607,14 @@ func (env *SpecEnv) binary(x SBinary) TVal {
 		if o, ok := cmp[x.Op]; ok {
 			return TVal{T: app(SBool, o, a.T, b.T), Ty: tBool}
 		}
-	case SF64:
-		ops := map[string]string{"+": "fp.add RNE", "-": "fp.sub RNE", "*": "fp.mul RNE", "/": "fp.div RNE"}
-		cmp := map[string]string{"<": "fp.lt", "<=": "fp.leq", ">": "fp.gt", ">=": "fp.geq"}
+	case SF64, SFU:
+		ops := map[string]string{"+": "add", "-": "sub", "*": "mul", "/": "div"}
+		cmp := map[string]string{"<": "lt", "<=": "leq", ">": "gt", ">=": "geq"}
 		if o, ok := ops[x.Op]; ok {
-			return TVal{T: app(SF64, o, a.T, b.T), Ty: a.Ty}
+			return TVal{T: te.FOp(o, a.T, b.T), Ty: a.Ty}
 		}
 		if o, ok := cmp[x.Op]; ok {
-			return TVal{T: app(SBool, o, a.T, b.T), Ty: tBool}
+			return TVal{T: te.FOp(o, a.T, b.T), Ty: tBool}
 		}
 	case SStr:
 		if x.Op == "+" {
@@ -825,6 +832,38 @@ func (env *SpecEnv) call(c SCall) TVal {
 			ref = app(SInt, "sl_arr", v.T)
 		}
 		return TVal{T: And(app(SBool, ">=", ref, IntLit(0)), app(SBool, "<", ref, fc.heapGet(env.Cur, nextVar))), Ty: tBool}
+	case "contents":
+		// contents(s): the backing array of slice s as a value
+		argN(1)
+		v := env.eval(c.Args[0])
+		sl, ok := v.Ty.Underlying().(*types.Slice)
+		if !ok {
+			env.fail("contents of non-slice")
+		}
+		return TVal{T: Select(fc.heapGet(env.Cur, te.ElemHeap(sl.Elem())), app(SInt, "sl_arr", v.T)), Ty: sl.Elem(), Kind: KArr}
+	case "at":
+		// at(d, off, i): element i of the view of d starting at off
+		argN(3)
+		d := env.eval(c.Args[0])
+		if d.Kind != KArr {
+			env.fail("at needs array contents")
+		}
+		return TVal{T: te.At(d.T, fc.toInt(env.eval(c.Args[1]).T), fc.toInt(env.eval(c.Args[2]).T)), Ty: d.Ty}
+	case "sel":
+		// sel(d, p): the element at absolute position p of array contents d
+		argN(2)
+		d := env.eval(c.Args[0])
+		if d.Kind != KArr {
+			env.fail("sel needs array contents")
+		}
+		return TVal{T: Select(d.T, fc.toInt(env.eval(c.Args[1]).T)), Ty: d.Ty}
+	case "store":
+		argN(3)
+		d := env.eval(c.Args[0])
+		if d.Kind != KArr {
+			env.fail("store needs array contents")
+		}
+		return TVal{T: Store(d.T, fc.toInt(env.eval(c.Args[1]).T), env.eval(c.Args[2]).T), Ty: d.Ty, Kind: KArr}
 	case "fresh":
 		// allocated by this function/step: not allocated in the old state
 		argN(1)
@@ -880,15 +919,18 @@ func (env *SpecEnv) call(c SCall) TVal {
 		argN(1)
 		v := env.eval(c.Args[0])
 		return TVal{T: fc.E.i2f(te, v.T, v.Ty != nil && isUnsigned(v.Ty)), Ty: tFloat}
+	case "feq":
+		argN(2)
+		return TVal{T: te.FOp("eq", env.eval(c.Args[0]).T, env.eval(c.Args[1]).T), Ty: tBool}
 	case "isNaN":
 		argN(1)
-		return TVal{T: app(SBool, "fp.isNaN", env.eval(c.Args[0]).T), Ty: tBool}
+		return TVal{T: te.FOp("isNaN", env.eval(c.Args[0]).T), Ty: tBool}
 	case "isInf":
 		argN(1)
-		return TVal{T: app(SBool, "fp.isInfinite", env.eval(c.Args[0]).T), Ty: tBool}
+		return TVal{T: te.FOp("isInf", env.eval(c.Args[0]).T), Ty: tBool}
 	case "ceil":
 		argN(1)
-		return TVal{T: app(SF64, "fp.roundToIntegral RTP", env.eval(c.Args[0]).T), Ty: tFloat}
+		return TVal{T: te.FOp("ceil", env.eval(c.Args[0]).T), Ty: tFloat}
 	case "f2i":
 		argN(1)
 		return TVal{T: fc.E.f2i(te, env.eval(c.Args[0]).T), Ty: tInt}
